@@ -225,7 +225,11 @@ func (g *gen) dflt(t *ty) (string, *val) {
 func (g *gen) printCode(sp string, t *ty) {
 	switch t.k {
 	case kLeaf:
-		g.stmt("io::Println(%s);", sp)
+		if t.leaf == "byte" {
+			g.stmt("io::Println(%s as i32);", sp) // a byte prints as a character: show its number
+		} else {
+			g.stmt("io::Println(%s);", sp)
+		}
 	case kStruct:
 		for i, f := range t.fs {
 			g.printCode(fmt.Sprintf("%s.F%d", sp, i), f)
@@ -630,7 +634,11 @@ func (g *gen) methodCalls(leafs []target, v *val, tag string) {
 	for i, tg := range leafs {
 		n := g.fresh("m")
 		g.stmt("let %s: %s = v.m%d();", n, tg.t.leaf, i)
-		g.println(n, nav(v, tg.idx).leaf, tag+" v.m"+strconv.Itoa(i)+"() = v"+tg.path)
+		shown := n
+		if tg.t.leaf == "byte" {
+			shown = n + " as i32" // a byte prints as a character
+		}
+		g.println(shown, nav(v, tg.idx).leaf, tag+" v.m"+strconv.Itoa(i)+"() = v"+tg.path)
 	}
 }
 
